@@ -101,3 +101,71 @@ def int_field_fractional_bounds(ai: int, bi: int, vi: int, use_min: bool, use_ma
         return hold("reject", not want, lambda: "%r rejected with bounds (%r, %r)" % (v, lo, hi))
     hold("accept", want and r == v, lambda: "%r accepted with bounds (%r, %r)" % (v, lo, hi))
     return True
+
+
+import enum
+
+
+class _Status(enum.IntEnum):
+    OK = 200
+    TEAPOT = 418
+
+
+class _MyInt(int):
+    pass
+
+
+class _MyFloat(float):
+    pass
+
+
+class _MyStr(str):
+    pass
+
+
+SUBCLASS_INPUTS = (_Status.OK, _Status.TEAPOT, _MyInt(7), _MyFloat(7.0), _MyStr("12"), _MyStr("x"), True)
+
+
+@obligation(prop="C05", sites=("accept", "reject"), encodes=ENC, budget={"quick": 120, "thorough": 300},
+            what="IntField / FloatField / PortField given values whose type is a SUBCLASS of int / float / str (IntEnum "
+                 "member, int/float/str subclasses) with bounds from a menu: judged by their numeric value like the plain "
+                 "type and normalised to a plain int / float; bool stays rejected")
+def number_subclass_inputs(si: int, ai: int, bi: int, which: int) -> bool:
+    """
+    pre: 0 <= si < 7 and 0 <= which <= 2 and 0 <= ai <= 2 and 0 <= bi <= 2
+    post: _
+    """
+    from cincoconfig import PortField
+    a = b = None
+    for n, (ca, cb) in enumerate(((None, None), (0, 100), (300, 500))):
+        if ai == n:
+            a = ca
+        if bi == n:
+            b = cb
+    v = SUBCLASS_INPUTS[0]
+    for n in range(7):
+        if si == n:
+            v = SUBCLASS_INPUTS[n]
+    if which == 2:
+        if a is not None or b is not None:
+            skip("port: fixed bounds")
+        f, lo, hi, typ = PortField(), 1, 65535, int
+    elif which == 1:
+        f, lo, hi, typ = FloatField(min=a, max=b), a, b, float
+    else:
+        f, lo, hi, typ = IntField(min=a, max=b), a, b, int
+    if isinstance(v, bool):
+        num = None
+    elif isinstance(v, str):
+        num = typ(12) if v == "12" else None
+    else:
+        num = typ(v)
+    want = num is not None and (lo is None or num >= lo) and (hi is None or num <= hi)
+    try:
+        r = f.validate(_cfg(), v)
+    except ValueError:
+        return hold("reject", not want, lambda: "%r (%s) rejected by %s with bounds (%r, %r)" % (
+            v, type(v).__name__, type(f).__name__, lo, hi))
+    hold("accept", want, lambda: "%r accepted with bounds (%r, %r)" % (v, lo, hi))
+    hold("accept", type(r) is typ and r == num, lambda: "normal form %r (%s)" % (r, type(r).__name__))
+    return True
